@@ -143,6 +143,24 @@ def run(ctx):
             s.loads.append({"kind": "d", "term": "fy", "local": True, "bar": b, "t0": Fr(0), "v0": Fr("-42.3"), "t1": Fr(1), "v1": Fr("-17.9")})
         if i % 6 == 5:
             s = G.with_unused_node(s, rng)      # a node no bar is linked to has no equation numbers to write
+        if i % 12 == 3:
+            # identifiers have no maximum length: a bar line that is longer in the .inkfempre (blanks inside the braces, the node
+            # count) than in the definition, around the 4096 bytes of a read buffer
+            long_id = "b" + "x" * (4055 + (i % 7))
+            old = s.bars[0]["id"]
+            s.bars[0]["id"] = long_id
+            for l in s.loads:
+                if l["bar"] == old:
+                    l["bar"] = long_id
+        if i % 12 == 7:
+            # equal and opposite distributed loads either side of a node: its left and right loads cancel, neither is zero
+            s = G.gen_beam(rng)
+            b = s.bars[0]
+            s.nodes[b["n1"]] = s.nodes[b["n1"]][:2] + ((True, True, True),)
+            s.nodes[b["n2"]] = s.nodes[b["n2"]][:2] + ((True, True, True),)
+            s.loads = [{"kind": "d", "term": "fx", "local": True, "bar": b["id"], "t0": Fr(0), "v0": Fr(1000), "t1": Fr("0.5"), "v1": Fr(1000)},
+                       {"kind": "d", "term": "fx", "local": True, "bar": b["id"], "t0": Fr("0.5"), "v0": Fr(-1000), "t1": Fr(1), "v1": Fr(-1000)},
+                       {"kind": "c", "term": "fy", "local": True, "bar": b["id"], "t": Fr("0.3"), "v": Fr(-200)}]
         structs.append(s)
     cases = [{"Text": s.text(), "Weight": i % 3 == 0, "Solve": True, "Assemble": True, "Error": "1e-6" if i % 4 != 2 else "1e-3", "ViaPre": True} for i, s in enumerate(structs)]
     direct = [dict(c, ViaPre=False) for c in cases]
